@@ -8,6 +8,7 @@ HOOK_COMMITS = [l.split()[0] for l in HOOK_COMMITS if l.split(" ", 1)[1].startsw
 ENGINES = {
  "crashx": ("harness/src/crashx.rs, harness/src/props/crash.rs, shim/vshim.c", "LD_PRELOAD tracer records every mutating libc call of a worker process running the real store; the parent replays the trace into a file-system model, enumerates every crash point x image family, materialises each distinct image and recovers it with the real store; tracer self-check (replayed trace == real directory) on every run"),
  "damage-sweep": ("harness/src/props/c16.rs", "every damage position x damage kind of a file, evaluated in worker subprocesses (abort/hang attributed through a progress file), answers compared with the pristine answers"),
+ "schedx": ("harness/src/schedx.rs, harness/src/props/sched.rs", "baton scheduler over real OS threads: threads run only when chosen, decisions at the yield/acquire hook points compiled into surrealkv and at pending awaits (custom block_on), canonical enabled order, preemption-bounded depth-first exploration with parallel subtrees, deadlock/livelock detection, replay of a recorded choice list"),
  "seqx-component": ("harness/src/props/c04.rs, c12.rs, c13.rs, c18.rs", "bounded-exhaustive enumeration against real components reached through the cfg(surrealkv_verif) facades (conflict oracle, commit-log writer/reader/repair, table writer/reader, B+tree), each compared with a small reference model"),
  "seqx-txn": ("harness/src/props/c08.rs, harness/src/props/c09.rs", "bounded-exhaustive programs (transaction calls / cursor calls) against the real Transaction API on stores built by a construction script, compared call by call with a reference model"),
  "seqx-world": ("harness/src/world.rs", "bounded-exhaustive operation sequences on the real store under a harness-driven single-threaded runtime (background tasks run only where the sequence says), compared with a reference model after every step; stateless re-execution from a fresh directory"),
@@ -18,7 +19,7 @@ SEQ_TECH = "bounded-exhaustive operation-sequence enumeration on the real code v
 CHECKS = {
  "C01": dict(engine="seqx-world", cat="model_checking", tech=SEQ_TECH,
   text="All world sequences (commits, flush / compaction / rotate / background drain, up to two long-lived readers with begin, drop, pending writes and an open range cursor stepped across physical operations) up to a length bound are executed on the real store; after every step every open reader's point reads, both scan directions and cursor position are compared with the map model at the prefix fixed at its begin.",
-  note="Sequential histories x placements x a fixed list of option sets only; thread interleavings of begin/commit/compaction are not part of this check's claim. Exhaustive within the stated grammar bounds.", ref="DESIGN.md §5 C01"),
+  note="Sequential part: histories x placements x a fixed list of option sets, exhaustive within the grammar bounds. Schedule part (schedx): a reader's begin and three read rounds interleaved with two committers on the key it reads, flush and compaction, all schedules within the preemption bound; the reader's reads must be identical and mutually consistent.", ref="DESIGN.md §5 C01"),
  "C06": dict(engine="seqx-world", cat="model_checking", tech=SEQ_TECH,
   text="Every logical history of n single-write transactions over two colliding keys and four write kinds, crossed with every placement of up to d physical operations (rotate, flush, compaction round, background drain, clean reopen), is executed on the real store for each option set of a fixed list; after every step all point reads and both scan directions of a fresh transaction are compared with a map model.",
   note="Exhaustive only within the stated bounds (n, d) and the fixed option-set list; keys/values are a fixed small alphabet; single-threaded (background tasks run only where the sequence says).", ref="DESIGN.md §5 C06"),
@@ -33,7 +34,7 @@ CHECKS = {
   note="Exhaustive within keys/program-length/reversal bounds; one option set with one entry per block and per index partition; after the cursor ran off an end only seeks are issued (as the property states).", ref="DESIGN.md §5 C09"),
  "C04": dict(engine="seqx-component", cat="model_checking", tech=SEQ_TECH,
   text="All event lists (begin, commit of live transaction #i on {a}|{b}|{a,b} with or without a failing memtable apply, abort, pin/unpin of a read-only observer; at most 3 live and 4 transactions) up to a length bound run (A) on the real CommitOracle + ActiveTxnTracker with the GC throttle forced to 2 and 3 so the real gate and sweep run, the harness playing the commit critical section in the pipeline's order, and (B) on the real store through begin/commit with injected apply failures; every admission/rejection is compared with a full-history conflict model and the committed state with a map model.",
-  note="Sequential event orders only (no interleavings inside begin() or inside the commit critical section); two keys; GC interval forced by a hook that bumps the real counter to the real threshold.", ref="DESIGN.md §5 C04"),
+  note="Parts A/B enumerate sequential event orders; part C (schedx) explores all schedules within the preemption bound of three transactions with overlapping key sets (incl. an injected apply failure): failed commits leave no trace, final values come from successful writers, and two successful writers of a key never read the same version of it. GC interval forced by a hook that bumps the real counter to the real threshold.", ref="DESIGN.md §5 C04"),
  "C12": dict(engine="seqx-component", cat="fault_enumeration", tech="exhaustive damage enumeration (every truncation offset / bit flip / byte XOR of an enumerated position set) on files written and read by the real commit-log code, vs. a record-list model",
   text="For every record-length sequence of a block-boundary-focused alphabet (x LZ4 on/off x session split) the segment written by the real writer is read back, then damaged at every position of an enumerated set by truncation, byte XOR and each single-bit flip; each damaged file is read, repaired when corruption is reported, read again, appended to by a fresh writer and read a last time; the prefix rule of the property is checked at every stage.",
   note="File-level part (writer, reader, repair through the facade). Files above the size bound are damaged at every header/padding/fragment-edge/block-boundary byte rather than at every byte (an enumerated set, reported in evidence). Store-level recovery modes are judged by the crash engine.", ref="DESIGN.md §5 C12"),
@@ -45,7 +46,7 @@ CHECKS = {
   note="Exhaustive to the stated depth from each seed state; state identity is a 64-bit hash of the file bytes; key sets and size classes are fixed lists chosen to force splits, merges, redistribution, overflow and free-list reuse.", ref="DESIGN.md §5 C18"),
  "C02": dict(engine="crashx", cat="fault_enumeration", tech="exhaustive crash-point x torn-write enumeration over traced executions of the real store (LD_PRELOAD tracer), recovered by the real store and compared with the model of acknowledged commits",
   text="Workloads (every op list up to a length bound over commits with both durabilities, multi-key commits, deletes, flush, compaction, rotation, background drain, reopen, synced WAL flush; plus rotation families against a tiny memtable) run in a traced worker; for every crash point (after every file-system call) the process-crash image and the power-loss family (all unsynced data dropped; one file keeps each prefix of its unsynced writes with the last one torn) are built, de-duplicated and recovered with the real store; every acknowledged (process model) or durably acknowledged (power model) commit must be present. A second generation (crash, recover, commit, crash) runs from distinct recovered images.",
-  note="Crash model as stated in the property (namespace operations in order; per-file prefix of unsynced writes). Concurrent committers are not part of this check. Generation 2 covers a capped, priority-ordered subset of recovered images (reported).", ref="DESIGN.md §5 C02"),
+  note="Crash model as stated in the property (namespace operations in order; per-file prefix of unsynced writes). Schedule axis (schedx): two concurrent committers against a nearly full memtable plus a background flusher/compactor, a process-crash image is taken and recovered after every explored schedule. Generation 2 covers a capped, priority-ordered subset of recovered images (reported).", ref="DESIGN.md §5 C02"),
  "C03": dict(engine="crashx", cat="fault_enumeration", tech="exhaustive crash-point x torn-write enumeration over traced executions of the real store, recovered content compared with every prefix of the commit order",
   text="Same image enumeration as C02 (shared engine, separate verdict): the full scan of every recovered image must equal the map model at one prefix of the commit order, no transaction partially present, nothing deleted or overwritten within the prefix reappearing; includes crash points inside flush, manifest replacement, compaction (output, manifest switch, input deletion), WAL repair and orphan clean-up during the traced recovery of second-generation runs.",
   note="Sequential commit order (single committer). Crash model as stated in C02.", ref="DESIGN.md §5 C03"),
@@ -55,6 +56,12 @@ CHECKS = {
  "C16": dict(engine="damage-sweep", cat="fault_enumeration", tech="exhaustive single-bit / single-byte / truncation damage enumeration over files written by the real code, read back through the real readers in isolated worker processes",
   text="For every byte position of table files in several formats (real TableWriter, read through the production file implementation) and of the table, commit-log (absolute-consistency mode) and value-log (full checksum verification) files of small databases built by the real store: each of the 8 single-bit flips, XOR 0xff and, for tables, truncation at that offset; every point lookup (every key incl. absent ones x snapshots) and both scan directions, respectively open + reads of the database, must return the pristine answer or an error. Workers run as subprocesses with a progress file so that aborts and hangs are attributed to the exact position.",
   note="Single-bit/byte damage and truncation only; the manifest is not in the property's scope and is not swept; in repair mode a consistent prefix of the commit log is the documented outcome (judged by C12), so the commit-log case uses absolute-consistency mode.", ref="DESIGN.md §5 C16"),
+ "C05": dict(engine="schedx", cat="model_checking", tech="stateless preemption-bounded schedule exploration of real OS threads (CHESS-style iterative context bounding) at cfg(surrealkv_verif) scheduling points, every schedule re-executed on the real store",
+  text="2-3 committers with batches of different sizes (incl. one with a duplicate key from savepoint history), optionally against a nearly full memtable so that the rotation falls inside an apply, plus a background thread flushing and compacting, are run under a baton scheduler for every schedule with at most 2 (quick) / 3 (thorough) preemptions; at EVERY scheduling point of every schedule a read-only probe transaction is begun and must see, for each transaction, all of its writes or none, a horizon that accounts for exactly the visible transactions, every commit that had already returned, and never less than an earlier probe.",
+  note="Interleavings at the hook points and at pending awaits only (code between two points runs atomically; data races between points and weak-memory effects are outside the claim). Background work is a managed thread calling the flush/compaction bodies directly.", ref="DESIGN.md §5 C05"),
+ "C17": dict(engine="schedx", cat="model_checking", tech="stateless preemption-bounded schedule exploration of real OS threads (CHESS-style iterative context bounding) at cfg(surrealkv_verif) scheduling points, every schedule re-executed on the real store",
+  text="Committers against a nearly full memtable with the lowest legal stall thresholds, a background flusher/compactor, injected WAL and apply failures and a closer thread issuing the shutdown signals are explored for every schedule within the preemption bound; the scheduler reports a deadlock (no enabled thread while some are unfinished) or a livelock (step horizon exceeded), any panic (incl. the commit-queue overflow panic) and any commit error that has no cause in the scenario. The full close() (task manager stop with real timers) is exercised after every prefix of sequential workloads by the world engine (C06/C07).",
+  note="Up to 3 concurrent committers (the pipeline admits 7); close() itself is not run under the scheduler (its tokio timers are not scheduling points), only its first two steps (pipeline shutdown + stall wake-up) are.", ref="DESIGN.md §5 C17"),
 }
 
 NOT_YET = {}
